@@ -155,6 +155,19 @@ def translate():
                     need(False, node, "state write with a non-literal key", rel)
                 if "beta" in keys:
                     writers.append(f"{rel}:{node.lineno}")
+    # the three downstream steps agree on what a warm-up iteration is: exactly beta == 0 (the temperature of the iteration),
+    # read from the current state; a step that treats a small positive beta as warm-up would desynchronise them
+    warm = {}
+    for rel, qual, var in (("steps/train.py", "Trainer.run", "beta_val"), ("steps/resample.py", "Resampler.run", "beta"),
+                           ("steps/mutate.py", "Mutator.run", "beta")):
+        f2 = get_function(REPO / "tempest" / rel, qual)
+        body2 = strip_doc(f2.body)
+        k2 = next((i for i, x in enumerate(body2) if isinstance(x, ast.Assign) and _ns(x.targets[0]) == var
+                   and _ns(x.value) == "self.state.get_current('beta')"), None)
+        need(k2 is not None and k2 + 1 < len(body2) and isinstance(body2[k2 + 1], ast.If), f2, "warm-up test follows the read of the current beta", rel)
+        tst = _ns(body2[k2 + 1].test)
+        warm[qual] = tst in (f"{var}==0.0", f"{var}==0")
+        need(tst.startswith(var), body2[k2 + 1], f"warm-up test {tst}", rel)
     text_v = f"""(* GENERATED from /repo/tempest/steps/reweight.py by tools/props/c05.py *)
 From Coq Require Import List Bool Arith.
 From Tempest Require Import Base.Ops.
@@ -177,6 +190,7 @@ Definition branches_assign_matching_beta_weights_ess : bool := true.
 Definition logz_computed_at_chosen_beta : bool := true.
 Definition finalize_writes_beta_ess_logz : bool := true.
 Definition other_steps_writing_beta : nat := {len(writers)}.
+Definition warmup_iteration_is_beta_equal_zero_in_train_resample_mutate : bool := {str(all(warm.values())).lower()}.
 """
     write_if_changed(COQ / "Gen" / "Schedule.v", text_v)
 
